@@ -971,6 +971,10 @@ func checkSignature(algo SignatureAlgorithm, signed, signature []byte, publicKey
 			return errors.New("x509: DSA verification failure")
 		}
 		return
+	case *sm2.PublicKey:
+		// the library's own SM2 key type: same check as for the *ecdsa.PublicKey that
+		// ParseCertificate produces for an SM2 key
+		return checkSignature(algo, signed, signature, &ecdsa.PublicKey{Curve: pub.Curve, X: pub.X, Y: pub.Y})
 	case *ecdsa.PublicKey:
 		ecdsaSig := new(ecdsaSignature)
 		if rest, err := asn1.Unmarshal(signature, ecdsaSig); err != nil {
